@@ -249,7 +249,7 @@ pub fn check(s: &'static dyn Proto, c: &Case, st: &mut Stats, _k: &KnownFindings
 
 pub const BUDGET: Budget = Budget {
     quick: (240, 90, 32),
-    thorough: (3000, 900, 300),
+    thorough: (10000, 3000, 1000),
     shrink: 60,
 };
 
